@@ -118,3 +118,24 @@ func CtlLocalTimeFormat(ts int64) string {
 func CtlUTCTimeYear(ts int64) int { return time.Unix(ts, 0).UTC().Year() }
 
 func CtlTimestampOnly(ts int64) int64 { return time.Unix(ts, 0).Add(time.Hour).Unix() }
+
+// CtlMapRangeSortedByPrefix: collect-then-sort, but the comparator looks at a prefix of each key
+// only: keys that share the prefix keep their map-iteration order (must be reported).
+func CtlMapRangeSortedByPrefix(m map[[20]byte]int) [][20]byte {
+	var keys [][20]byte
+	for k := range m {
+		keys = append(keys, k)
+	}
+	sort.Slice(keys, func(i, j int) bool { return string(keys[i][:8]) < string(keys[j][:8]) })
+	return keys
+}
+
+// CtlMapRangeSortedWhole: the comparator orders whole keys (must stay silent).
+func CtlMapRangeSortedWhole(m map[[20]byte]int) [][20]byte {
+	var keys [][20]byte
+	for k := range m {
+		keys = append(keys, k)
+	}
+	sort.Slice(keys, func(i, j int) bool { return string(keys[i][:]) < string(keys[j][:]) })
+	return keys
+}
